@@ -35,8 +35,10 @@ def check(ctx):
     ws = [n for n in run.own_nodes() if isinstance(n, ast.With) and any(norm(it.context_expr) == rr.observer_var for it in n.items)]
     ok = len(ws) == 1
     ctx.ob("C15.P1", f"{run.short}/one-with", ok, loc(run), "one `with progress_observer:`" if ok else f"{len(ws)} with-statements on the observer")
-    notifying = {f for f in m.funcs.values() if not f.module.name.startswith("uberjob.progress") and notify_calls(f)}
-    ctx.floor("C15.P1", "functions with notification sites outside the progress package", len(notifying), 4)
+    # notification sites that a run can reach (a leftover, uncalled helper is not on any run's path)
+    live = m.reachable([run], kinds=("call", "thread")) | {run}
+    notifying = {f for f in m.funcs.values() if not f.module.name.startswith("uberjob.progress") and notify_calls(f) and f in live}
+    ctx.floor("C15.P1", "functions with notification sites outside the progress package", len(notifying), 2)
     reach_notify = {f for f in m.funcs.values() if m.reachable([f], kinds=("call", "thread")) & notifying}
     if ok:
         w = ws[0]
